@@ -272,7 +272,24 @@ def _slug(s):
     while '--' in s:
         s = s.replace('--', '-')
     # numbers are values, not mechanisms
-    return '-'.join(w for w in s.strip('-').split('-') if not w.isdigit())[:60]
+    return '-'.join(w for w in s.strip('-').split('-')
+                    if not w.isdigit() and len(w) > 1)[:60]
+
+
+def mechanism(slug):
+    """Mismatch slug without its position: 'array/' and 'nested/' path
+    components are dropped (where the value sat is witness data, not a
+    mechanism), except that a timetag inside a blob is kept apart from a
+    bundle's own timetag."""
+    parts = slug.split('/')
+    inblob = False
+    while parts and parts[0] in ('array', 'nested'):
+        inblob = inblob or parts[0] == 'nested'
+        parts.pop(0)
+    rest = '/'.join(parts)
+    if rest == 'timetag' and inblob:
+        return 'timetag-of-bundle-inside-blob'
+    return rest
 
 
 # --------------------------------------------------------------------------
